@@ -5,6 +5,7 @@ package main
 import (
 	"encoding/base64"
 	"fmt"
+	"github.com/oauth2-proxy/oauth2-proxy/v7/pkg/clock"
 	"net/url"
 	"strings"
 	"time"
@@ -70,6 +71,7 @@ func vfC03(w *vfWorld) {
 		return
 	}
 	t := w.tape
+	defer clock.Reset()
 	cs := &vfC03Case{}
 	w.sample = cs
 	cfg := vfDefaultCfg()
@@ -84,6 +86,11 @@ func vfC03(w *vfWorld) {
 	cfg.CookieRefresh = vfPick(t, "c03.refresh", []time.Duration{0, time.Minute, time.Hour, 0})
 	if cfg.CookieExpire != 0 && cfg.CookieRefresh >= cfg.CookieExpire {
 		cfg.CookieRefresh = 0
+	}
+	// the identity provider may return the browser with a POSTed form instead of a redirect with a query
+	formPost := t.Prob("c03.form-post", 250)
+	if formPost {
+		cfg.Extra = append(cfg.Extra, "--auth-request-response-mode=form_post")
 	}
 	atIdP := vfPick(t, "c03.at-idp", []time.Duration{0, 0, 3 * time.Minute, 10 * time.Minute, 14 * time.Minute})
 	cs.PerRequest, cs.EncodeState, cs.PKCE, cs.Store = cfg.CSRFPerRequest, cfg.EncodeState, cfg.PKCE, cfg.Store
@@ -111,7 +118,14 @@ func vfC03(w *vfWorld) {
 		if !cfg.SkipButton && !strings.HasPrefix(target, pp+"/start") {
 			target = pp + "/start?rd=%2Fapp%2Fbutton%2F" + fmt.Sprint(i)
 		}
+		// the replica that starts the login may run a few seconds or minutes ahead of the one that completes it (the
+		// signed stamp of the CSRF cookie tolerates five minutes)
+		skew := vfPick(t, "c03.skew", []time.Duration{0, 0, 0, 0, 3 * time.Second, 90 * time.Second, 4*time.Minute + 50*time.Second})
+		if skew > 0 {
+			clock.Set(time.Now().Add(skew))
+		}
 		lg, r := b.StartLogin(rep, target, users[i%2])
+		clock.Reset()
 		if lg == nil {
 			w.fatalf("c03: start %q failed: %d", target, r.Status)
 		}
@@ -177,7 +191,12 @@ func vfC03(w *vfWorld) {
 			}
 		}
 		target := pp + "/callback?code=" + url.QueryEscape(freshCode(l)) + "&state=" + url.QueryEscape(l.Lg.State)
-		r := l.B.Do(rep, &vfReq{Method: "GET", Target: target, NoApply: true}) // NoApply: keep the jars intact for the attack phase
+		creq := &vfReq{Method: "GET", Target: target, NoApply: true} // NoApply: keep the jars intact for the attack phase
+		if formPost {
+			body := url.Values{"code": {freshCode(l)}, "state": {l.Lg.State}}.Encode()
+			creq = &vfReq{Method: "POST", Target: pp + "/callback", NoApply: true, Body: []byte(body), Headers: [][2]string{{"Content-Type", "application/x-www-form-urlencoded"}}}
+		}
+		r := l.B.Do(rep, creq)
 		cs.Honest++
 		ok := established(r)
 		if ok {
